@@ -1,0 +1,18 @@
+//go:build verif
+
+package debugger
+
+// Verification-harness accessors (only with -tags verif). They are meant to
+// be called from inside the debugger machine (Machine.Eval), like the
+// handlers that own this data.
+
+// VerifExport runs the export the dialog's Save button runs.
+func (d *Debugger) VerifExport(filename string, snapshot bool) {
+	d.hExportData(filename, snapshot)
+}
+
+// VerifFilterTx reports whether transition idx of the selected client passes
+// the currently active filters (the predicate behind MsgTxsFiltered).
+func (d *Debugger) VerifFilterTx(idx int) bool {
+	return d.hFilterTx(d.C, idx, d.filtersFromStates())
+}
